@@ -90,7 +90,9 @@ def parseTagOp (s : String) : Option Model.TagOp :=
   match s.splitOn ":" with
   | ["a", n, h] => do let n ← n.toNat?; let d ← ofHex h; some (.add n d)
   | ["r", n] => do let n ← n.toNat?; some (.remove n)
-  | ["s", h] => do let d ← ofHex h; some (.setSsid d)
+  | ["s", h] => do
+    -- the harness hands the octets to the setter as a C string: the call sees them up to the first NUL
+    let d ← ofHex h; some (.setSsid (d.takeWhile (· ≠ 0)))
   | ["c", n] => do let n ← n.toNat?; some (.setChannel (UInt8.ofNat n))
   | ["k", n] => do let n ← n.toNat?; some (.check n)
   | _ => none
@@ -262,9 +264,12 @@ def specGen (mk : Model.GKind) (k : Spec.Kind) (a : Model.GArgs) (edits : List M
     if !editApplies mk e o0 then return "any"
     match e with
     | .detail d =>
-      details := details ++ d
-      if details.length > 255 then return "any"
-      er := details.length
+      -- the detail length is one octet: what it cannot describe is refused and nothing changes
+      if details.length + d.length > 255 then
+        er := -22
+      else
+        details := details ++ d
+        er := details.length
     | .freeDetail =>
       details := []
       er := 0
